@@ -10,6 +10,7 @@ requests, message deliveries of either direction, flush notifications), replayed
 -/
 import LndModel.Prelude.Lines
 import LndModel.C17.Closer
+import LndModel.C17.Restart
 
 open LndModel LndModel.Lines LndModel.C17
 
@@ -28,8 +29,25 @@ structure St where
   nontrivial : Nat := 0
   factSeen : Bool := false
   -- the current sched case: model side
-  sys : Option Sys := none
+  rs : Option RSys := none
   budget : Int := 0
+  -- restart / persistence facts of the current case (trace only)
+  sentI : Option String := none          -- script of the first Shutdown I sent in this case
+  sentR : Option String := none
+  finalBy : List String := []            -- sides whose last call returned `final` (this event)
+  everFinal : List String := []          -- sides that completed the close in this case
+  goneSeen : Bool := false               -- a restart found a co-op close tx on record
+  restartsSeen : Nat := 0
+  minMaxI : Option Int := none           -- smallest opener cap of any epoch
+  restartCases : Nat := 0
+  restartEvents : Nat := 0
+  restartResend : Nat := 0
+  restartGone : Nat := 0
+  restartIdle : Nat := 0
+  restartDropped : Nat := 0
+  dbLines : Nat := 0
+  dbTxPersisted : Nat := 0
+  dbBothTxEqual : Nat := 0
   lastFailed : Option String := none      -- side whose call failed in the last event
   -- the current sched case: facts collected from the trace for the monitor
   tap : Bool := false
@@ -79,6 +97,8 @@ structure St where
   vssMismatch : Nat := 0
   vusLines : Nat := 0
   vusValid : Nat := 0
+
+def St.sys (s : St) : Option Sys := s.rs.map (·.s)
 
 def mismatch (s : St) (detail : String) : IO St := do
   IO.println s!"MISMATCH case={s.caseId} line={s.lines} {detail}"
@@ -191,6 +211,58 @@ def sigFieldsOk (tap : Bool) (ws : List String) : Bool :=
 
 /-! ### one line -/
 
+/-- `ev restart both => rI=… rR=…`: the connection dropped and was re-established. -/
+def restartLine (s : St) (rest : List String) : IO St := do
+  let mut s := { s with ops := s.ops + 1, evs := s.evs + 1, evLines := s.evLines + 1, lastFailed := none,
+                        finalBy := [], restartsSeen := s.restartsSeen + 1, restartEvents := s.restartEvents + 1,
+                        nontrivial := s.nontrivial + 1 }
+  let res := resOf rest
+  let implRes := " ".intercalate res
+  -- ------------------------------------------------------------ (X) correspondence
+  if let some r := s.rs then
+    match r.step .restart with
+    | none =>
+      s ← mismatch s "restart is not enabled in the model (a closer failed)"
+      s := { s with rs := none }
+    | some r' =>
+      let part (n : String) (gone : Bool) (p : Peer) (out : List Msg) : String :=
+        if gone then s!"r{n}=gone"
+        else match out with
+          | [.shutdown sc nn] => s!"r{n}=resend sd{n}={bytesHex sc} n{n}={bit nn}"
+          | _ => s!"r{n}={stName p.st}"
+      let m := s!"{part "I" r'.goneI r'.s.i r'.s.toR} {part "R" r'.goneR r'.s.r r'.s.toI}"
+      if m != implRes then
+        s ← mismatch s s!"restart: model=[{m}] impl=[{implRes}]"
+      s := { s with rs := some r' }
+  -- ------------------------------------------------------------ (S) monitor, trace only
+  for (n, sent, ever) in [("I", s.sentI, s.everFinal.contains "I"), ("R", s.sentR, s.everFinal.contains "R")] do
+    let what := hx res s!"r{n}"
+    if what == "gone" then
+      s := { s with goneSeen := true, restartGone := s.restartGone + 1 }
+      -- the channel may only be treated as closed if this side completed the close
+      if !ever then
+        s ← monitor s "restart" s!"{n} treats the channel as co-op closed after the restart, but it never completed a close in this case"
+    else if what == "resend" then
+      s := { s with restartResend := s.restartResend + 1 }
+      let sc := hx res s!"sd{n}"
+      -- the Shutdown sent again names the delivery script of the first Shutdown
+      match sent with
+      | none => s ← monitor s "restart" s!"{n} sends a Shutdown after the restart although it never sent one before"
+      | some sc0 =>
+        if sc0 != sc then
+          s ← monitor s "resend-script" s!"{n} announced delivery script {sc0} before the restart and {sc} after it"
+      if ever then
+        s ← monitor s "restart" s!"{n} completed the close (tx on record) but negotiates again after the restart"
+      if (kvNat? res s!"n{n}" == some 1) != s.tap then
+        s ← monitor s "sig-fields" s!"taproot={bit s.tap}: Shutdown sent again by {n} carries the wrong nonce field"
+    else if what == "idle" then
+      s := { s with restartIdle := s.restartIdle + 1 }
+      if sent.isSome then
+        s ← monitor s "restart" s!"{n} sent a Shutdown (script {sent.getD "-"}) before the restart and forgot the close after it"
+    else
+      s ← monitor s "restart" s!"{n}: restart failed: {implRes}"
+  return s
+
 def evLine (s : St) (line : String) (kind wS : String) (rest : List String) : IO St := do
   let mut s := { s with ops := s.ops + 1, evs := s.evs + 1, evLines := s.evLines + 1, lastFailed := none }
   let args := argsOf rest
@@ -200,7 +272,8 @@ def evLine (s : St) (line : String) (kind wS : String) (rest : List String) : IO
   let isSd := args.head? == some "sd"
   let isCs := args.head? == some "cs"
   -- ------------------------------------------------------------ (X) correspondence
-  if let some sys := s.sys then
+  if let some r := s.rs then
+    let sys := r.s
     match whoOf wS with
     | none => s ← mismatch s s!"bad side in: {line.take 60}"
     | some w =>
@@ -210,25 +283,43 @@ def evLine (s : St) (line : String) (kind wS : String) (rest : List String) : IO
       match ev? with
       | none => s ← mismatch s s!"unknown event: {line.take 60}"
       | some ev =>
-        if kind == "deliver" then
+        if kind == "deliver" && !r.gone w then
           let consumed := noSig args
           let head := (ownQ sys w).head?.map msgStr
           if head != some consumed then
             s ← mismatch s s!"deliver {wS}: model queue head=[{head.getD "empty"}] impl consumed=[{consumed}]"
-        match sys.step ev with
+        match r.step (.ev ev) with
         | none =>
-          s ← mismatch s s!"event `{kind} {wS}` is not enabled in the model (I={stName sys.i.st} R={stName sys.r.st} toI={sys.toI.length} toR={sys.toR.length} failed={sys.failed.isSome})"
-          s := { s with sys := none }
-        | some sys' =>
-          let m := modelResult (kind == "close" || isSd) sys sys' w
+          s ← mismatch s s!"event `{kind} {wS}` is not enabled in the model (I={stName sys.i.st} R={stName sys.r.st} toI={sys.toI.length} toR={sys.toR.length} failed={sys.failed.isSome} gone={r.gone w})"
+          s := { s with rs := none }
+        | some r' =>
+          let m := if r.gone w then "dropped" else modelResult (kind == "close" || isSd) sys r'.s w
           if m != implRes then
             s ← mismatch s s!"{kind} {wS} {noSig args}: model=[{m}] impl=[{implRes}]"
-          s := { s with sys := some sys' }
+          s := { s with rs := some r' }
   -- ------------------------------------------------------------ (S) monitor, trace only
   if isErr then
     s := { s with lastFailed := some wS }
     if s.errSeen.isNone then s := { s with errSeen := some (res.getD 1 "panic") }
   if kind == "deliver" then s := { s with delivers := s.delivers + 1, nontrivial := s.nontrivial + 1 }
+  -- a message addressed to a side whose channel is not loaded any more
+  if res.head? == some "dropped" then
+    if !s.goneSeen then
+      s ← monitor s "restart" s!"{wS} dropped a message although no restart found a close tx on record"
+    return { s with restartDropped := s.restartDropped + 1, finalBy := [] }
+  -- the delivery script a side announces never changes within one close
+  if !isErr then
+    if let "ok" :: "sd" :: _ := res then
+      let sc := hx res "script"
+      let prev := if wS == "I" then s.sentI else s.sentR
+      match prev with
+      | none => s := if wS == "I" then { s with sentI := some sc } else { s with sentR := some sc }
+      | some sc0 =>
+        if sc0 != sc then
+          s ← monitor s "resend-script" s!"{wS} announced delivery script {sc0} first and {sc} later"
+  s := { s with finalBy := [] }
+  if let "final" :: _ := res then
+    s := { s with finalBy := [wS], everFinal := if s.everFinal.contains wS then s.everFinal else wS :: s.everFinal }
   if kind == "close" && s.delivers == 0 then s := { s with closesBeforeDeliver := s.closesBeforeDeliver + 1 }
   if kind == "flush" then
     if s.flushes == 0 && wS == "R" then s := { s with rFlushedFirst := true }
@@ -287,6 +378,66 @@ def stLine (s : St) (rest : List String) : IO St := do
       s ← mismatch s s!"queues: model toI={sys.toI.length} toR={sys.toR.length} impl qI={qI} qR={qR}"
     if sys.i.cached.isSome != cI || sys.r.cached.isSome != cR then
       s ← mismatch s s!"cache: model I={sys.i.cached.isSome} R={sys.r.cached.isSome} impl I={cI} R={cR}"
+  if let some r := s.rs then
+    if r.goneI != b01 rest "goneI" || r.goneR != b01 rest "goneR" then
+      s ← mismatch s s!"gone: model I={r.goneI} R={r.goneR} impl I={b01 rest "goneI"} R={b01 rest "goneR"}"
+  return s
+
+def dbModel (n : String) (d : Db) : String :=
+  let info := match d.info with
+    | none => s!"info{n}=- loc{n}=0"
+    | some (sc, l) => s!"info{n}={if sc.isEmpty then "empty" else bytesHex sc} loc{n}={bit l}"
+  s!"{info} tx{n}={bit d.tx.isSome} coop{n}={bit d.coop} li{n}={bit d.li} ri{n}={bit d.ri}"
+
+def dbImpl (n : String) (ws : List String) : String :=
+  s!"info{n}={hx ws s!"info{n}"} loc{n}={hx ws s!"loc{n}"} tx{n}={bit (hx ws s!"tx{n}" != "-")} coop{n}={hx ws s!"coop{n}"} li{n}={hx ws s!"li{n}"} ri{n}={hx ws s!"ri{n}"}"
+
+/-- `db infoI= locI= txI= sameI= coopI= liI= riI= infoR= …`: the close-related database record of
+    both sides, read back from the real channel database after every event. -/
+def dbLine (s : St) (rest : List String) : IO St := do
+  let mut s := { s with ops := s.ops + 1, dbLines := s.dbLines + 1 }
+  -- ------------------------------------------------------------ (X) correspondence
+  if let some r := s.rs then
+    for (n, d) in [("I", r.dbI), ("R", r.dbR)] do
+      -- a failing call may have written before it failed; the model leaves the record unchanged
+      if s.lastFailed != some n then
+        if dbModel n d != dbImpl n rest then
+          s ← mismatch s s!"db: model=[{dbModel n d}] impl=[{dbImpl n rest}]"
+        -- the fee of the recorded transaction (when no output is trimmed, outputs = funds - fee)
+        if let (some f, some tf) := (d.tx, kvInt? rest s!"tx{n}") then
+          let openerSat := (kvInt? s.hdr "openerSat").getD 0
+          let dustI := (kvInt? s.hdr "dustI").getD 0
+          if openerSat - f ≥ dustI && dustI ≥ 0 && (kvInt? s.hdr "otherSat").getD 0 ≥ (kvInt? s.hdr "dustR").getD 0 && tf != f then
+            s ← mismatch s s!"db: recorded close tx of {n} pays fee {tf}, model {f}"
+  -- ------------------------------------------------------------ (S) monitor, trace only
+  for n in ["I", "R"] do
+    let tx := hx rest s!"tx{n}"
+    let same := hx rest s!"same{n}"
+    let coop := b01 rest s!"coop{n}"
+    if s.everFinal.contains n then
+      -- the completed transaction is on record, byte for byte, for re-broadcast after a restart
+      if tx == "-" || !coop then
+        s ← monitor s "persist-tx" s!"{n} completed the close but no co-op close tx is on record (tx={tx} coop={bit coop})"
+      else if same != "1" then
+        s ← monitor s "persist-tx" s!"the co-op close tx on record for {n} is not the transaction it completed and broadcast"
+      else if s.finalBy.contains n then
+        s := { s with dbTxPersisted := s.dbTxPersisted + 1, nontrivial := s.nontrivial + 1 }
+    else if tx != "-" || coop then
+      -- a close tx on record makes a restart abandon the negotiation
+      s ← monitor s "persist-tx" s!"{n} has a co-op close tx on record (tx={tx} coop={bit coop}) before it completed the close"
+  return s
+
+def dbEndLine (s : St) (rest : List String) : IO St := do
+  let mut s := { s with ops := s.ops + 1 }
+  let dbeq := (kvInt? rest "dbeq").getD (-1)
+  if dbeq == 0 then
+    s ← monitor s "persist-tx" "the two sides have different co-op close transactions on record"
+  if dbeq == 1 then s := { s with dbBothTxEqual := s.dbBothTxEqual + 1 }
+  if let some r := s.rs then
+    if (kvNat? rest "restarts").getD 0 != s.restartsSeen then
+      s ← mismatch s "dbend: restart count"
+    if r.goneI != b01 rest "goneI" || r.goneR != b01 rest "goneR" then
+      s ← mismatch s "dbend: gone flags"
   return s
 
 def endLine (s : St) (rest : List String) : IO St := do
@@ -304,8 +455,9 @@ def endLine (s : St) (rest : List String) : IO St := do
                         maxEvents := max s.maxEvents s.evs, csProcessed := s.csProcessed + processed }
   -- ------------------------------------------------------------ (X) final model state
   if let some sys := s.sys then
-    if sys.delivered != processed then
-      s ← mismatch s s!"end: processed model={sys.delivered} impl={processed}"
+    let before := (s.rs.map (·.deliveredBefore)).getD 0
+    if before + sys.delivered != processed then
+      s ← mismatch s s!"end: processed model={before + sys.delivered} impl={processed}"
     let nI := sys.i.node
     let nR := sys.r.node
     if sortInts nI.offers != offI || sortInts nR.offers != offR then
@@ -327,6 +479,10 @@ def endLine (s : St) (rest : List String) : IO St := do
   let upR := hx hdr "upfrontR"
   let tap := s.tap
   let bothFin := stI == "fin" && stR == "fin"
+  -- a restart found one side's close completed (tx on record): that side is done, the other one
+  -- learns of the close from the chain; it cannot finish the negotiation any more
+  let oneGone := s.goneSeen && (stI == "fin" || stR == "fin")
+  if s.restartsSeen > 0 then s := { s with restartCases := s.restartCases + 1 }
   if capped then s := { s with capped := s.capped + 1 }
   if let some e := s.errSeen then
     s := { s with errors := s.errors + 1,
@@ -362,7 +518,7 @@ def endLine (s : St) (rest : List String) : IO St := do
         s ← monitor s "agreed-fee" s!"closing txs pay different fees {txfI} / {txfR}"
       if openerSat - f ≥ dustI && dustI ≥ 0 && (kvInt? hdr "otherSat").getD 0 ≥ (kvInt? hdr "dustR").getD 0 && txfI != f then
         s ← monitor s "agreed-fee" s!"closing tx pays fee {txfI}, agreed {f}"
-  else if (stI == "fin") != (stR == "fin") && !capped && s.errSeen.isNone then
+  else if (stI == "fin") != (stR == "fin") && !capped && s.errSeen.isNone && !oneGone then
     s ← monitor s "half-closed" s!"the run stopped with only one side finished (I={stI} R={stR})"
   -- termination. Hypotheses as for kind=neg (checks/C17.json): both ideals >= 10 sat, both within
   -- the opener's cap, both within what the opener can pay.
@@ -370,15 +526,20 @@ def endLine (s : St) (rest : List String) : IO St := do
   let hi := max idealI idealR
   let budget := s.budget
   let maxCfgI := (kvInt? hdr "maxCfgI").getD 0
-  let implMaxI := s.implMaxI.getD (if maxCfgI > 0 then maxCfgI else 3 * idealI)
+  let implMaxI0 := s.implMaxI.getD (if maxCfgI > 0 then maxCfgI else 3 * idealI)
+  let implMaxI := match s.minMaxI with | some m => min m implMaxI0 | none => implMaxI0
   if lo < 10 then s := { s with skipBelow10 := s.skipBelow10 + 1 }
   else if hi > implMaxI then s := { s with skipCap := s.skipCap + 1 }
   else if hi > budget then s := { s with skipBudget := s.skipBudget + 1 }
   if lo ≥ 10 && hi ≤ implMaxI && hi ≤ budget && hi < 1152921504606846976 then
     s := { s with termChecked := s.termChecked + 1 }
     let k := lo.toNat / 10
-    let bound := if tap then 3 else 5 + (hi - lo).toNat / k
-    if !bothFin || capped || s.errSeen.isSome then
+    let bound := (if tap then 3 else 5 + (hi - lo).toNat / k) * (s.restartsSeen + 1)
+    if oneGone && !capped && s.errSeen.isNone then
+      -- the finished side holds the completed transaction (clause persist-tx); nothing in flight
+      if s.qI != 0 || s.qR != 0 then
+        s ← monitor s "terminates" s!"final state not quiescent: qI={s.qI} qR={s.qR}"
+    else if !bothFin || capped || s.errSeen.isSome then
       s ← monitor s "terminates" s!"honest close idealI={idealI} idealR={idealR} maxI={implMaxI} budget={budget} did not reach agreement under this schedule (I={stI} R={stR} capped={capped} err={s.errSeen.getD "-"} events={s.evs})"
     else if processed > bound then
       s ← monitor s "terminates" s!"needed {processed} processed closing_signed, bound {bound}"
@@ -402,11 +563,13 @@ def step (s : St) (line : String) : IO St := do
       else return s
   | "CASE" :: id :: rest =>
     let kind := (kv? rest "kind").getD ""
-    let mut s := { s with caseId := id, kind := kind, hdr := rest, cases := s.cases + 1, sys := none,
+    let mut s := { s with caseId := id, kind := kind, hdr := rest, cases := s.cases + 1, rs := none,
                           lastFailed := none, implMaxI := none, errSeen := none, lastFinal := none,
                           evs := 0, delivers := 0, closesBeforeDeliver := 0, flushes := 0,
                           rFlushedFirst := false, cachedSeen := false, rejUpfront := false,
-                          rejInvalid := false, stI := "idle", stR := "idle", qI := 0, qR := 0 }
+                          rejInvalid := false, stI := "idle", stR := "idle", qI := 0, qR := 0,
+                          sentI := none, sentR := none, finalBy := [], everFinal := [], goneSeen := false,
+                          restartsSeen := 0, minMaxI := none }
     if kind == "sched" then
       let idealI := (kvInt? rest "idealI").getD 0
       let idealR := (kvInt? rest "idealR").getD 0
@@ -420,7 +583,10 @@ def step (s : St) (line : String) : IO St := do
         let sys := Sys.init (mkNode idealI (maxFeeOf idealI ((kvInt? rest "maxCfgI").getD 0)) budget true tap)
                             (mkNode idealR (maxFeeOf idealR ((kvInt? rest "maxCfgR").getD 0)) budget false tap)
                             sI sR uI uR
-        s := { s with sys := some sys }
+        -- closers re-created from a ShutdownInfo after a restart: no close request, default cap
+        let i1 : Peer := { sys.i with node := mkNode idealI (maxFeeOf idealI 0) budget true tap }
+        let r1 : Peer := { sys.r with node := mkNode idealR (maxFeeOf idealR 0) budget false tap }
+        s := { s with rs := some (RSys.init sys i1 r1) }
       | _, _, _, _ => s ← mismatch s "bad script hex in the case header"
       s := { s with budget := budget, tap := tap, schedCases := s.schedCases + 1,
                     taproot := s.taproot + (if tap then 1 else 0),
@@ -431,13 +597,18 @@ def step (s : St) (line : String) : IO St := do
         IO.println s!"SAMPLE {line}"
         s := { s with samples := s.samples + 1 }
     return s
+  | "ev" :: "restart" :: _ :: rest => restartLine s rest
   | "ev" :: kind :: w :: rest => evLine s line kind w rest
   | "st" :: rest => stLine s rest
+  | "db" :: rest => dbLine s rest
+  | "dbend" :: rest => dbEndLine s rest
   | "init" :: who :: rest =>
     let s := { s with ops := s.ops + 1 }
     let some ideal := kvInt? rest "ideal" | mismatch s "bad init"
     let some mx := kvInt? rest "max" | mismatch s "bad init"
-    let s := if who == "I" then { s with implMaxI := some mx } else s
+    let s := if who == "I" then
+        { s with implMaxI := some mx, minMaxI := some (match s.minMaxI with | some m => min m mx | none => mx) }
+      else s
     match s.sys with
     | none => return s
     | some sys =>
@@ -515,6 +686,15 @@ def mainSched : IO Unit := do
   IO.println s!"STAT termination_skipped_fee_above_opener_budget={s.skipBudget}"
   IO.println s!"STAT max_processed={s.maxProcessed}"
   IO.println s!"STAT max_events={s.maxEvents}"
+  IO.println s!"STAT restart_cases={s.restartCases}"
+  IO.println s!"STAT restart_events={s.restartEvents}"
+  IO.println s!"STAT restart_side_resent_shutdown={s.restartResend}"
+  IO.println s!"STAT restart_side_idle={s.restartIdle}"
+  IO.println s!"STAT restart_side_close_tx_on_record={s.restartGone}"
+  IO.println s!"STAT restart_messages_dropped={s.restartDropped}"
+  IO.println s!"STAT db_lines={s.dbLines}"
+  IO.println s!"STAT db_close_tx_persisted_checked={s.dbTxPersisted}"
+  IO.println s!"STAT db_both_sides_same_tx={s.dbBothTxEqual}"
   IO.println s!"STAT vss_lines={s.vssLines}"
   IO.println s!"STAT vss_ok={s.vssOk}"
   IO.println s!"STAT vss_invalidscript={s.vssInvalid}"
